@@ -267,6 +267,14 @@ Example c05_example_wrap :
      OId false 2; OFlag true; ONone; ODeliv [(2, 13); (2, 16); (2, 19)]].
 Proof. vm_compute. reflexivity. Qed.
 
+(* the clock reading goes backwards by 3 before a tick (update's "time gone backwards"
+   branch): that tick delivers nothing and takes the earlier reading as reference; the
+   timer fires after exactly 5 further units of forward time, during wheel tick 1005 *)
+Example c05_example_clock_back :
+  ex_run 1000 [Start 5; HandleAdd; Pass (-3); Tick; Pass 4; Tick; Pass 1; Tick]
+  = [OId false 1; OFlag true; ONone; ODeliv []; ONone; ODeliv []; ONone; ODeliv [(1, 5)]].
+Proof. vm_compute. reflexivity. Qed.
+
 Example c05_example_heap_array :
   map (fun x => (nid (hn x), hidx x))
       (aarr (fst (arun (ainit 0) [Start 9; Start 3; Start 5; Start 1; HandleAdd; HandleAdd; HandleAdd; HandleAdd; Cancel 2; HandleDel])))
